@@ -23,6 +23,7 @@ func c09(c *Ctx) {
 	p, R := a.p, c.R
 	R.Trust("go/types + go/ssa", "Go channel semantics (unbuffered errC has one reader)", "supervisor restarts a watcher whose Run returned")
 	loopVarRule(c, p, "C09.loopvar", pkgAlph)
+	c09poller(c, a)
 	R.Assumption("liveness (eventually observed, exactly once) is not decided; only the structural necessary conditions listed in the explanation")
 
 	// ---- C09.page-exit -------------------------------------------------------------------------
@@ -515,4 +516,99 @@ func c09optional(c *Ctx, a *alphAnchors) {
 		})
 	}
 	R.Floor("C09.optional-deref", n, 10)
+}
+
+// c09poller: the height poller is what drives confirmation of pending events. It is switched on
+// and off by the goroutine that owns the pending set (handleEvents_): on, before events are added;
+// off, only when the set is empty. If another goroutine switched it on (say the fetcher, before
+// handing the batch over), a concurrent `process` that empties the set would switch it off again
+// before the batch arrives, and the batch would never be confirmed.
+func c09poller(c *Ctx, a *alphAnchors) {
+	p, R := a.p, c.R
+	en := must(p.Method(pkgAlph, "Watcher", "EnableBlockPoller"), "EnableBlockPoller")
+	dis := must(p.Method(pkgAlph, "Watcher", "DisableBlockPoller"), "DisableBlockPoller")
+	fld := must(p.FieldOf(pkgAlph, "Watcher", "blockPollerEnabled"), "Watcher.blockPollerEnabled")
+	owner := func(f *ssa.Function) bool {
+		for f != nil {
+			if f == a.handleEvents_ {
+				return true
+			}
+			f = f.Parent()
+		}
+		return false
+	}
+	n := 0
+	for _, s := range append(callsTo(p, en), callsTo(p, dis)...) {
+		n++
+		R.Check("C09.poller", R.Key("C09.poller", shortFn(s.Fn), "call:"+s.Instr.(ssa.CallInstruction).Common().StaticCallee().Name()), c.sitePos(p, s), "the block poller is switched only by the goroutine that owns the pending-event set (handleEvents_)", owner(s.Fn),
+			"called from "+shortFn(s.Fn)+": a switch-on from another goroutine races with the owner switching it off after emptying the set; events handed over afterwards are never confirmed")
+	}
+	R.Floor("C09.poller.calls", n, 2)
+	// direct stores to the flag only inside Enable/Disable
+	for _, s := range fieldAccesses(p, fld) {
+		u, isLoad := s.Instr.(*ssa.UnOp)
+		if !isLoad || u.Referrers() == nil {
+			continue
+		}
+		for _, r := range *u.Referrers() {
+			if cl, ok := r.(*ssa.Call); ok && strings.HasSuffix(facts.CalleeName(&cl.Call), "atomic.Bool).Store") {
+				R.Check("C09.poller", R.Key("C09.poller", shortFn(s.Fn), "store:blockPollerEnabled"), c.sitePos(p, s), "the poller flag is written only by Enable/DisableBlockPoller", s.Fn == en || s.Fn == dis, "written in "+shortFn(s.Fn))
+			}
+		}
+	}
+	// on: before anything is added to the pending set; off: only when the set is empty
+	var pend *ssa.MakeMap
+	eachInstr(a.handleEvents_, func(i ssa.Instruction) {
+		if mm, ok := i.(*ssa.MakeMap); ok && pend == nil {
+			pend = mm
+		}
+	})
+	nadd := 0
+	for _, f := range append([]*ssa.Function{a.handleEvents_}, a.handleEvents_.AnonFuncs...) {
+		eachInstr(f, func(i ssa.Instruction) {
+			switch x := i.(type) {
+			case *ssa.MapUpdate:
+				if !strings.Contains(facts.Term(x.Map), "pendingEvents") && x.Map != ssa.Value(pend) {
+					return
+				}
+				nadd++
+				// one iteration of the owner's loop: from its select to the insertion; the batch
+				// is ranged over, so the `len(batch) == 0` edge cannot lead to an insertion
+				var start *ssa.BasicBlock
+				eachInstr(f, func(j ssa.Instruction) {
+					if sel, isSel := j.(*ssa.Select); isSel && sel.Blocking && start == nil {
+						start = sel.Block()
+					}
+				})
+				if start == nil {
+					start = f.Blocks[0]
+				}
+				cutEdges, _ := edgesWhere(f, func(at string) bool {
+					return strings.HasPrefix(at, "0 == len(select") || strings.HasPrefix(at, "len(select") && strings.HasSuffix(at, " == 0")
+				})
+				cuts := facts.Cuts{}
+				for _, e := range cutEdges {
+					cuts[e] = true
+				}
+				ok := facts.BeforeFrom(start, x, cuts, func(j ssa.Instruction) bool {
+					cl, isCall := j.(*ssa.Call)
+					return isCall && cl.Call.StaticCallee() == en
+				})
+				R.Check("C09.poller", R.Key("C09.poller", shortFn(f), "add-pending"), c.rel(p.Pos(x.Pos())), "the poller is switched on before an event is added to the pending set", ok, "no EnableBlockPoller on every path to this insertion")
+			case *ssa.Call:
+				if x.Call.StaticCallee() != dis {
+					return
+				}
+				fs := facts.Atoms(facts.At(x, nil))
+				ok := false
+				for _, at := range fs {
+					if strings.HasPrefix(at, "0 == len(") && strings.Contains(at, "pendingEvents") || strings.HasPrefix(at, "len(") && strings.HasSuffix(at, " == 0") {
+						ok = true
+					}
+				}
+				R.Check("C09.poller", R.Key("C09.poller", shortFn(f), "disable"), c.rel(p.Pos(x.Pos())), "the poller is switched off only when no event is pending", ok, strings.Join(fs, ";"))
+			}
+		})
+	}
+	R.Floor("C09.poller.add-pending", nadd, 1)
 }
